@@ -427,6 +427,16 @@ func (fr *Frame) step(ins0 ssa.Instruction, st *State, reach string, b *ssa.Basi
 	case *ssa.Go:
 		// goroutines are not interleaved: recorded as a ghost spawn event
 		x.ghostEvt["spawned:"+calleeName(&ins.Call)]++
+		{
+			name := calleeName(&ins.Call)
+			if mc, ok := ins.Call.Value.(*ssa.MakeClosure); ok {
+				name = fnKeyShort(mc.Fn.(*ssa.Function))
+			} else if f := ins.Call.StaticCallee(); f != nil {
+				name = fnKeyShort(f)
+			}
+			c := x.comp("G|spawned:"+name, "", "Int")
+			x.set(st, c, "(+ 1 "+x.get(st, c)+")")
+		}
 		x.note("goroutine `go %s` at %s not interleaved (recorded as spawn event)", calleeName(&ins.Call), x.posOf(ins))
 		fr.spawn(ins, st, reach)
 	case *ssa.Defer:
